@@ -4,4 +4,5 @@ pub mod spec;
 pub mod vz;
 pub mod c08_kernels;
 pub mod c08_vec;
+pub mod c09;
 pub mod generated;
